@@ -64,6 +64,10 @@ func (s gscen) plain(seed uint64) []byte {
 		return []byte{}
 	case "big":
 		return gen.Data(r, "random", 300<<10)
+	case "mixed":
+		// text, 300 KB of noise (several stored chunks in a row), text: like an archive with a
+		// media member between documents
+		return gen.Data(r, "sandwich", 600000)
 	case "truncated-aligned":
 		// compressible head, incompressible tail: near 32 KiB of output every further input
 		// byte yields about one more output byte, so a cut with an exact count exists
@@ -294,6 +298,8 @@ func c10Scenarios(c *ev.Ctx) []gscen {
 		add(gscen{Format: "lzma", Name: "data.txt", Input: "small", Existing: true, Force: true, Link: true, Keep: true})
 		add(gscen{Decomp: true, Format: "xz", Name: "data.xz", Input: "small", Existing: true, Force: true, Link: true})
 		add(gscen{Decomp: true, Format: "lzma", Name: "data.lzma", Input: "small", Existing: true, Link: true})
+		add(gscen{Format: "xz", Name: "archive.tar", Input: "mixed", Preset: "-6"})
+		add(gscen{Format: "lzma", Name: "archive.tar", Input: "mixed", Keep: true})
 		// called by another name
 		add(gscen{Alias: "xzcat", Decomp: true, Stdout: true, Format: "xz", Name: "data.xz", Input: "small"})
 		add(gscen{Alias: "lzcat", Decomp: true, Stdout: true, Format: "lzma", Name: "data.lzma", Input: "small"})
@@ -334,7 +340,7 @@ func c10Scenarios(c *ev.Ctx) []gscen {
 			for fl := 0; fl < 8; fl++ {
 				names := []string{"data", "data.txt", "data." + f, "data.t" + map[string]string{"xz": "xz", "lzma": "lz"}[f], "data.dat"}
 				for _, nm := range names {
-					inputs := []string{"small", "big", "empty"}
+					inputs := []string{"small", "big", "empty", "mixed"}
 					if dec {
 						inputs = append(inputs, "corrupt", "truncated", "truncated-aligned")
 					}
